@@ -442,6 +442,17 @@ def run(pid, tier, args):
         v.notes["family"] = "seeded grammars (seed %d) of family F_%s, inputs: exhaustive short token strings + sampled/mutated sentences; every lookahead of each case" % (vlib.seed(), pid)
         v.assumptions += ["struct types built with reflect.StructOf and participle.Union (dynamic, anonymous types)", "token streams of the case file equal Parser.Lex (self-checked each run)",
                           "grammar-bug constructs (nullable alternative/repetition body) are excluded from the verdict"]
+        if pid == "C02" and not args.replay:
+            # the context protocol on its own, for EVERY well-nested caller (no grammar): C02's mechanism for all grammars at once
+            cres = vlib.run_tlc(wd, "ContextProtocol", cfg="MC_ContextProtocol.cfg", consts=({} if tier == "quick" else {"MaxCaps": 4, "MaxBranches": 5}), timeout=3000)
+            if not cres.ok:
+                raise Infra("ContextProtocol: %s" % (cres.violation or cres.error))
+            v.add_tlc(cres)
+            # anti-vacuity: with the pinned tree's deviation (a completing production applies every pending capture) it must fail
+            ares = vlib.run_tlc(wd, "ContextProtocol", cfg="MC_ContextProtocol.cfg", consts={"ApplyAll": "TRUE"}, timeout=3000)
+            if ares.ok or not ares.violation:
+                raise Infra("ContextProtocol is vacuous: the ApplyAll deviation does not violate its invariants")
+            v.notes["context_protocol"] = "%d distinct states of the protocol with arbitrary callers: NoWriteBeforeCommit, NoDeadCaptureVisible, AppliedOnce hold; the ApplyAll deviation is rejected (%s)" % (cres.states, ares.violation)
         if pid == "C01" and not args.replay:
             from props import recorded
             recorded.check(v, wd, pid)
